@@ -233,6 +233,13 @@ Inductive stage := Raw | Tapered.
 Definition sat_input_stage : stage := Raw.
 Definition stage_code (s : stage) : Z := match s with Raw => 0 | Tapered => 1 end.
 
+(* ... saturation(data=chunk, max_voltage=_sr.range_volts[:ncv], fs=_sr.fs): one threshold per
+   voltage channel (the reader's per-channel range, NP1: 0.6 V / AP gain of that channel), not one
+   for the probe; the sampling rate is the reader's. *)
+Inductive sat_threshold := PerChannel | OneForAll.
+Definition sat_max_voltage : sat_threshold := PerChannel.
+Definition threshold_code (t : sat_threshold) : Z := match t with PerChannel => 0 | OneForAll => 1 end.
+
 (* _saturation[first_s:last_s] = saturated_samples : one slice assignment per loop pass *)
 Definition sat_op := (Z * Z)%type.
 Definition sat_ops_of (r : wres) : list sat_op :=
